@@ -149,7 +149,10 @@ def r131(ck, prog):
                             if k is not None:
                                 cap |= closure_capture_origins(prog, m, c.path, k)
                     same = bool(cap) and cap == file_o
-                    rng = all(x[0] == "arg" and x[2][-1:] == ("range",) for x in ro)
+                    # the error's own `range` field: of the closure's parameter (map form) or of the loop element (for form)
+                    rng = bool(ro) and all((x[0] == "arg" and x[2][-1:] == ("range",)) or
+                                           (x[0] == "call" and str(x[1]).endswith("Iterator>::next") and x[3][-1:] == ("range",))
+                                           for x in ro)
                     paired = paired or (same and rng)
         ck.ob("R13.1", "paired", paired, "each syntax error is filed under the file whose parse produced it, with the error's own range",
               msg="diagnostics::exec files a syntax error under a file other than the one whose parse produced it")
